@@ -334,7 +334,7 @@ namespace RecInt
     inline void add_1(bool& r, ruint<K>& a, const ruint<K>& b) {
         bool rl;
         add_1(rl, a.Low, b.Low);
-        add_wc(r, a.High, b.High, rl);
+        add(r, a.High, b.High, rl);
     }
 #if defined(__RECINT_USE_FAST_128)
     template<>
@@ -386,7 +386,7 @@ namespace RecInt
     inline void add_1(ruint<K>& a, const ruint<K>& b) {
         bool rl;
         add_1(rl, a.Low, b.Low);
-        add_wc(a.High, b.High, rl);
+        add(a.High, b.High, rl);
     }
 #if defined(__RECINT_USE_FAST_128)
     template<>
